@@ -1,1 +1,2 @@
 import OdfProps.C19
+import OdfProps.C18
